@@ -142,7 +142,7 @@ QUERIES = [
                                          [dict(n0=0, o1=0, n1=0, o2=b, n2=0, o3=[2, 4]) for b in (0, 1, 3)]) if tier == "quick" else
           [dict(n0=n, o1=a, o2=b) for n in (0, 1) for a in range(NO) for b in range(NO)],
           natives=[dict(t0=1, t1=2, t2=3, t3=4, n0=0, o1=a, a1=0, n1=na, o2=b, a2=ab, n2=nb, o3=c, a3=ac, n3=nc) for (a, na, b, ab, nb, c, ac, nc) in
-                   ((0, 0, 0, 0, 0, 4, 1, 0), (1, 0, 3, 0, 1, 4, 0, 0), (2, 0, 0, 0, 2, -1, 0, 0), (6, 0, 2, 1, 0, 3, 1, 0), (0, 1, 3, 0, 1, 5, 1, 0), (4, 0, 0, 0, 0, 1, 0, 0), (0, 0, 0, 0, 0, 0, 0, 0), (2, 4, 0, 0, 0, 4, 0, 0), (3, 5, 2, 0, 0, -1, 0, 0), (0, 4, 0, 0, 0, -1, 0, 0), (1, 5, 4, 0, 0, -1, 0, 0))],
+                   ((0, 0, 0, 0, 0, 4, 1, 0), (1, 0, 3, 0, 1, 4, 0, 0), (2, 0, 0, 0, 2, -1, 0, 0), (6, 0, 2, 1, 0, 3, 1, 0), (0, 1, 3, 0, 1, 5, 1, 0), (4, 0, 0, 0, 0, 1, 0, 0), (0, 0, 0, 0, 0, 0, 0, 0), (2, 4, 0, 0, 0, 4, 0, 0), (3, 5, 2, 0, 0, -1, 0, 0), (0, 4, 0, 0, 0, -1, 0, 0), (1, 5, 4, 0, 0, -1, 0, 0))] + [dict(t0=1, t1=2, t2=3, t3=4, n0=1, o1=0, a1=0, n1=0, o2=0, a2=0, n2=0, o3=4, a3=1, n3=0), dict(t0=1, t1=2, t2=3, t3=4, n0=3, o1=0, a1=0, n1=0, o2=3, a2=0, n2=0, o3=-1, a3=0, n3=0)],
           bounds=lambda tier: {"name_pool": POOL, "operations": OPS, "history": "2 operations (quick) / 3 (thorough)", "models": "up to 4 open at once", "tokens": "unbounded symbolic ints"},
           outside=["models holding references into each other", "histories longer than 3", "restore_model / pickled models"]),
 ]
